@@ -172,7 +172,31 @@ func ruleC10HandlerTotal(c *Ctx) {
 				ok, why = false, "explicit panic inside a recover handler at "+c.P.Pos(in.Pos())
 			}
 		})
-		c.Check(ok, "c10.handler-total", key, c.P.Pos(f.Pos()), "recovered value handled without a panicking assertion", why)
+		// the handler recovers on every way through it: a return that is reached without calling recover() (an early exit
+		// "when there is nobody to report to") lets the panic it was deferred for go on — in a goroutine that kills the process
+		var recBlocks []*ssa.BasicBlock
+		allInstrs(f, func(b *ssa.BasicBlock, in ssa.Instruction) {
+			if call, isCall := in.(*ssa.Call); isCall {
+				if bi, isB := call.Call.Value.(*ssa.Builtin); isB && bi.Name() == "recover" {
+					recBlocks = append(recBlocks, b)
+				}
+			}
+		})
+		allInstrs(f, func(b *ssa.BasicBlock, in ssa.Instruction) {
+			if _, isRet := in.(*ssa.Return); !isRet {
+				return
+			}
+			dominated := false
+			for _, rb := range recBlocks {
+				if rb == b || rb.Dominates(b) {
+					dominated = true
+				}
+			}
+			if !dominated && len(recBlocks) > 0 {
+				ok, why = false, "the handler can return at "+c.P.Pos(in.Pos())+" without having called recover(): on that path the panic is not stopped"
+			}
+		})
+		c.Check(ok, "c10.handler-total", key, c.P.Pos(f.Pos()), "recovered value handled without a panicking assertion; recover() on every path", why)
 	}
 	if n < 3 {
 		c.Unknown("c10.handler-total", "handlers", "-", fmt.Sprintf("only %d recover handlers found (New, Exec, exec, Sort expected)", n))
